@@ -298,9 +298,17 @@ type rbFn struct {
 	contr  map[string]bool // variables that are Read counts
 	ctx    string
 	retLen bool // the method returns one slice: its length is part of the summary
+	retInt bool // the method returns one integer: its value is part of the summary
 }
 
 const rbRetLen = "$retlen"
+
+// rbReturnsInt: the method returns one integer: its value, as a function of
+// the cursors, is part of the summary (under the same name as a slice length).
+func rbReturnsInt(fn *ssa.Function) bool {
+	res := fn.Signature.Results()
+	return res.Len() == 1 && isIntType(res.At(0).Type())
+}
 
 func rbReturnsSlice(fn *ssa.Function) bool {
 	res := fn.Signature.Results()
@@ -358,6 +366,9 @@ func (r *rbRun) method(fn *ssa.Function, in *rbOct) *rbOct {
 	f.exvars = append(f.exvars, rbIntParams(fn)...)
 	if rbReturnsSlice(fn) {
 		f.retLen = true
+		f.exvars = append(f.exvars, rbRetLen)
+	} else if rbReturnsInt(fn) {
+		f.retInt = true
 		f.exvars = append(f.exvars, rbRetLen)
 	}
 	f.exit = &rbOct{vars: f.exvars, bot: true}
@@ -754,6 +765,14 @@ func (f *rbFn) walk(b, prev *ssa.BasicBlock, st *rbPoly, depth int) {
 					}
 				}
 			}
+			if f.retInt {
+				st.eliminate(rbRetLen)
+				if len(in.Results) == 1 {
+					if l, ok := f.lin(in.Results[0]); ok {
+						st.eq(linVar(rbRetLen).plus(l, -1))
+					}
+				}
+			}
 			f.exit.joinWiden(octOf(st, f.exvars))
 			return
 		case *ssa.Panic:
@@ -1012,6 +1031,8 @@ func (f *rbFn) call(st *rbPoly, in *ssa.Call) {
 		}
 		if rbReturnsSlice(cal) {
 			f.lens[in] = linVar(fmt.Sprintf("$retlen%d", r.callNo))
+		} else if rbReturnsInt(cal) {
+			st.eq(linVar(res).plus(linVar(fmt.Sprintf("$retlen%d", r.callNo)), -1))
 		}
 		st.tidy()
 		return
